@@ -77,15 +77,21 @@ func simplify(start, s *State, visited map[*State]bool) {
 	for _, tr := range s.Transitions {
 		simplify(start, tr.Next, visited)
 	}
-	for s.simplifySelf(start) {
+	// states whose transitions were already pulled into s: shortcuts can form cycles
+	expanded := map[*State]bool{s: true}
+	for s.simplifySelf(start, expanded) {
 	}
 }
 
-func (s *State) simplifySelf(start *State) bool {
+func (s *State) simplifySelf(start *State, expanded map[*State]bool) bool {
 	for idx, tr := range s.Transitions {
 		if matcher.IsShortcut(tr.Matcher) {
 			next := tr.Next
 			s.Transitions = removeTransitionAt(idx, s.Transitions)
+			if expanded[next] {
+				return true
+			}
+			expanded[next] = true
 			for _, tr := range next.Transitions {
 				if !s.has(tr) {
 					s.Transitions = append(s.Transitions, tr)
